@@ -231,21 +231,24 @@ class AbstractBasis:
                                                 skip_dofnames=skip)
                     for k in facets}
 
+        # absent with disable_doflocs=True
+        doflocs = getattr(self, 'doflocs', None)
+
         if elements is not None:
             elements = self.mesh.normalize_elements(elements)
             return self.dofs.get_element_dofs(elements,
                                               skip_dofnames=skip,
-                                              doflocs=self.doflocs)
+                                              doflocs=doflocs)
         elif nodes is not None:
             nodes = self.mesh.normalize_nodes(nodes)
             return self.dofs.get_vertex_dofs(nodes,
                                              skip_dofnames=skip,
-                                             doflocs=self.doflocs)
+                                             doflocs=doflocs)
 
         facets = self.mesh.normalize_facets(facets)
         return self.dofs.get_facet_dofs(facets,
                                         skip_dofnames=skip,
-                                        doflocs=self.doflocs)
+                                        doflocs=doflocs)
 
     def __repr__(self):
         size = sum([sum([y.size if hasattr(y, 'size') else 0
